@@ -219,6 +219,11 @@ fn sender_alphabet(cfg: &XCfg, v: &SView, answers: usize) -> Vec<Alt> {
         }
         return a;
     }
+    if cfg.alpha == 5 {
+        // minimal: the conformant answer or a duplicate of the previous acknowledgement
+        a.push((pkt(rc::ack(w16(lo - 1)), 0), 1, format!("dup Ack({})", lo - 1)));
+        return a;
+    }
     let mut acks: Vec<(u64, String)> = vec![];
     let span = hi - lo + 1;
     if span <= 4 {
@@ -363,7 +368,8 @@ pub fn run(cfg: &XCfg, prefix: &[u16]) -> Trace {
         }
         Role::Receiver => {
             let p = format!("{dir}/upload");
-            let _ = std::fs::remove_file(&p);
+            // an older, longer file of that name is already there: an accepted upload replaces it entirely
+            let _ = std::fs::write(&p, vec![0xA5u8; cfg.len.min(4096) + 97]);
             p
         }
     };
